@@ -378,3 +378,118 @@ Proof.
   rewrite sort_desc_id by (rewrite <- D; apply (inv_sorted _ _ I)).
   eexists; split; reflexivity.
 Qed.
+
+(** * Several loggers in one directory *)
+Lemma filter_filter_imp {A} (f g : A -> bool) l :
+  (forall x, f x = true -> g x = true) -> filter f (filter g l) = filter f l.
+Proof.
+  intros H. induction l as [|x l IH]; [reflexivity|]. cbn.
+  destruct (g x) eqn:G; cbn.
+  - destruct (f x); rewrite IH; reflexivity.
+  - destruct (f x) eqn:F; [rewrite (H x F) in G; discriminate | exact IH].
+Qed.
+
+Lemma is_prog_both p q x : is_prog p x = true -> is_prog q x = true -> p = q.
+Proof. unfold is_prog. intros A B. apply bytes_eqb_eq in A, B. congruence. Qed.
+
+(** A program name that properly extends [p] is not [p]: the main logger does
+    not list "<program>-audit" files, nor "audit" those of "audit-x". *)
+Lemma is_prog_extension p c r f : is_prog p (mkD (p ++ c :: r) f) = false.
+Proof.
+  unfold is_prog. cbn. destruct (bytes_eqb (p ++ c :: r) p) eqn:E; [|reflexivity].
+  apply bytes_eqb_eq in E. apply (f_equal (@length byte)) in E.
+  rewrite app_length in E. cbn in E. lia.
+Qed.
+
+(** GC of one logger leaves every file of every other program where it is. *)
+Theorem gc_dir_other_programs_untouched p b d :
+  filter (fun x => negb (is_prog p x)) (gc_dir p b d) = filter (fun x => negb (is_prog p x)) d.
+Proof.
+  unfold gc_dir. apply filter_filter_imp. intros x H. rewrite H. reflexivity.
+Qed.
+
+Corollary gc_dir_keeps_other_file p b d x : In x d -> is_prog p x = false -> In x (gc_dir p b d).
+Proof.
+  intros I H. unfold gc_dir. apply filter_In. split; [assumption|]. rewrite H. reflexivity.
+Qed.
+
+Lemma list_files_gc_dir_other p q b d : p <> q -> list_files q (gc_dir p b d) = list_files q d.
+Proof.
+  intros N. unfold list_files, gc_dir. f_equal. apply filter_filter_imp.
+  intros x Q. destruct (is_prog p x) eqn:P; [|reflexivity].
+  exfalso. apply N. eapply is_prog_both; eassumption.
+Qed.
+
+Lemma NoDup_map_inj {A B} (h : A -> B) l a b :
+  NoDup (map h l) -> In a l -> In b l -> h a = h b -> a = b.
+Proof.
+  induction l as [|x l IH]; intros ND Ia Ib E; [contradiction|].
+  cbn in ND. inversion ND as [|? ? Hn ND']; subst.
+  destruct Ia as [-> | Ia], Ib as [-> | Ib]; auto.
+  - exfalso. apply Hn. rewrite E. apply in_map; assumption.
+  - exfalso. apply Hn. rewrite <- E. apply in_map; assumption.
+Qed.
+
+(** ... and among the logger's own files exactly those survive that its GC
+    selects (so the newest-file and cumulative-size theorems apply to the files
+    of THIS logger, whatever else the directory holds). *)
+Theorem gc_dir_own_files p b d : NoDup (map f_stamp (list_files p d)) ->
+  forall f, In f (list_files p (gc_dir p b d)) <-> In f (gc b (list_files p d)).
+Proof.
+  intros ND f. unfold list_files at 1. rewrite in_map_iff. split.
+  - intros (x & <- & Hx). apply filter_In in Hx. destruct Hx as [Hx P].
+    unfold gc_dir in Hx. apply filter_In in Hx. destruct Hx as [Hd K].
+    rewrite P in K. cbn in K. unfold stamp_in in K. apply existsb_exists in K.
+    destruct K as (g & Hg & E). apply Z.eqb_eq in E.
+    assert (In (d_file x) (list_files p d)) as I1.
+    { unfold list_files. apply in_map. apply filter_In. split; assumption. }
+    assert (In g (list_files p d)) as I2 by (eapply gc_incl; eassumption).
+    rewrite <- (NoDup_map_inj f_stamp _ _ _ ND I2 I1 E). exact Hg.
+  - intros K. pose proof (gc_incl _ _ _ K) as I. unfold list_files in I.
+    apply in_map_iff in I. destruct I as (x & <- & Hx). apply filter_In in Hx. destruct Hx as [Hd P].
+    exists x. split; [reflexivity|]. apply filter_In. split; [|exact P].
+    unfold gc_dir. apply filter_In. split; [exact Hd|].
+    rewrite P. cbn. unfold stamp_in. apply existsb_exists. exists (d_file x). split; [exact K | apply Z.eqb_refl].
+Qed.
+
+(** The files of logger [q] in the common directory are its own [dir]. *)
+Lemma filter_is_prog_map q p l :
+  filter (is_prog q) (map (mkD p) l) = if bytes_eqb p q then map (mkD p) l else [].
+Proof.
+  destruct (bytes_eqb p q) eqn:E; induction l as [|f l IH]; try reflexivity;
+    cbn [map filter]; change (is_prog q (mkD p f)) with (bytes_eqb p q); rewrite E, IH; reflexivity.
+Qed.
+
+Lemma list_files_flat_absent q ms : ~ In q (map fst ms) -> list_files q (flat_dir ms) = [].
+Proof.
+  induction ms as [|[p s] ms IH]; intros H; [reflexivity|].
+  unfold list_files, flat_dir in *. cbn [map concat fst snd]. rewrite filter_app, map_app, filter_is_prog_map.
+  destruct (bytes_eqb p q) eqn:E.
+  - apply bytes_eqb_eq in E. exfalso. apply H. left. exact E.
+  - cbn. apply IH. intros C. apply H. right. exact C.
+Qed.
+
+Lemma list_files_flat q s ms : NoDup (map fst ms) -> In (q, s) ms -> list_files q (flat_dir ms) = dir s.
+Proof.
+  induction ms as [|[p s'] ms IH]; intros ND I; [contradiction|].
+  cbn in ND. inversion ND as [|? ? Hn ND']; subst.
+  unfold list_files, flat_dir in *. cbn [map concat fst snd]. rewrite filter_app, map_app, filter_is_prog_map.
+  destruct I as [E | I].
+  - inversion E; subst. replace (bytes_eqb q q) with true by (symmetry; apply bytes_eqb_eq; reflexivity).
+    rewrite map_map. cbn. rewrite map_id.
+    fold (flat_dir ms). fold (list_files q (flat_dir ms)).
+    rewrite (list_files_flat_absent q ms Hn). apply app_nil_r.
+  - destruct (bytes_eqb p q) eqn:E.
+    + apply bytes_eqb_eq in E. subst. exfalso. apply Hn. apply (in_map fst) in I. exact I.
+    + cbn. apply IH; assumption.
+Qed.
+
+(** A GC run of logger [p] in a process with several loggers changes no other
+    logger's files. *)
+Theorem mgc_other_loggers_unchanged h p b q s ms :
+  NoDup (map fst ms) -> In (q, s) ms -> q <> p -> In (q, s) (mstep h ms (MGc p b)).
+Proof.
+  intros ND I N. cbn [mstep]. apply in_map_iff. exists (q, s). split; [|exact I].
+  cbn [fst snd]. rewrite list_files_gc_dir_other by congruence.
+  rewrite (list_files_flat q s ms ND I). destruct s; reflexivity.
+Qed.
